@@ -1,6 +1,16 @@
 package harness
 
 import (
+	"context"
+	"path/filepath"
+	"time"
+
+	"github.com/KevoDB/kevo/pkg/engine"
+	"github.com/KevoDB/kevo/pkg/replication"
+	"github.com/KevoDB/kevo/pkg/zzverif/vsched"
+	"github.com/KevoDB/kevo/pkg/zzverif/vtime"
+	rp "github.com/KevoDB/kevo/proto/kevo/replication"
+	"google.golang.org/grpc/metadata"
 	"encoding/json"
 	"fmt"
 	"strings"
@@ -129,7 +139,7 @@ func init() {
 	fw.Register(&fw.Check{
 		ID:    "C08",
 		Level: "model_checking",
-		Rule: "explicit-state search over engine programs {put a, del a, put b, 3-entry commit, 1-entry commit, flush, bg, reopen} up to the depth per configuration (memtable 32 MiB / 1 B / 40 B; wal_max_size 1 B so that every reopening starts a new log file instead of continuing the newest one); after each program: storage_last_sequence sampled after every step never decreases (also across reopen) and is not behind the last stamp; the log directory read back in file order holds exactly the program's writes in issue order, every write stamped strictly higher than every earlier one, all entries of one batch stamped alike. Concurrent part: stateless exploration (deviation bound 2 quick / 3 thorough, one less for the three-thread scenario) of 4 scenarios in which two client threads write while a flush rotates the log (explicit flush caller, or memtable size 1 B); oracle on every execution: the stamp (read back from the log) of every acknowledged write is strictly greater than the stamp of every write acknowledged before it started. Crash recoveries are covered by C02's enumeration, which applies the same stamp rule after recovery. Non-trivial = programs with >=2 steps",
+		Rule: "explicit-state search over engine programs {put a, del a, put b, 3-entry commit, 1-entry commit, flush, bg, reopen} up to the depth per configuration (memtable 32 MiB / 1 B / 40 B; wal_max_size 1 B so that every reopening starts a new log file instead of continuing the newest one); after each program: storage_last_sequence sampled after every step never decreases (also across reopen) and is not behind the last stamp; the log directory read back in file order holds exactly the program's writes in issue order, every write stamped strictly higher than every earlier one, all entries of one batch stamped alike. Concurrent part: stateless exploration (deviation bound 2 quick / 3 thorough, one less for the three-thread scenario) of 4 scenarios in which two client threads write while a flush rotates the log (explicit flush caller, or memtable size 1 B); oracle on every execution: the stamp (read back from the log) of every acknowledged write is strictly greater than the stamp of every write acknowledged before it started. Retention: real engine + real replication.Primary + one in-memory replica session, 3 variants (everything acknowledged / one behind / everything acknowledged and 25 h old): writes, flush, the acknowledgement (which runs the primary's log retention), restart, one more write - the reported last sequence does not drop, the new write is stamped above the old ones and is read back. Crash recoveries are covered by C02's enumeration, which applies the same stamp rule after recovery. Non-trivial = programs with >=2 steps",
 		Assumptions: []string{"the stamp of a write is read from the log, which is what replication ships"},
 		Units: func(tier string) []string {
 			var us []string
@@ -142,6 +152,7 @@ func init() {
 					us = append(us, fmt.Sprintf("prog/%s/%d/%d", cfg, depth[cfg], i))
 				}
 			}
+			us = append(us, "retention/acked-all", "retention/acked-one-behind", "retention/acked-all-aged")
 			// concurrent part: the scenarios of C06 that write from two threads around a rotation
 			b := 2
 			if tier == "thorough" {
@@ -159,6 +170,9 @@ func init() {
 		Run: func(unit string, env *fw.Env) *fw.Result {
 			if strings.HasPrefix(unit, "prog/") {
 				return c08Unit(unit, env)
+			}
+			if strings.HasPrefix(unit, "retention/") {
+				return c08RetentionUnit(unit, env)
 			}
 			sp := parseSched(unit)
 			for _, sc := range c08ConcScenarios() {
@@ -186,4 +200,105 @@ func init() {
 		},
 		BudgetQuick: 110, BudgetThorough: 900,
 	})
+}
+
+// retention: the primary removes log files that every replica has acknowledged (and files older than its age limit)
+// whenever an acknowledgement arrives. Whatever it removes, the database's sequence position must survive a restart.
+// One controlled run per variant: real engine + real Primary + one in-memory replica session whose acknowledgements
+// the harness sends; writes, a flush (rotation), the acknowledgement, restart, one more write.
+func c08RetentionUnit(unit string, env *fw.Env) *fw.Result {
+	res := fw.NewResult()
+	variant := strings.TrimPrefix(unit, "retention/")
+	dir := filepath.Join(fw.Scratch("c08r"), "db")
+	var problem string
+	s := vsched.Run(vsched.Config{Bound: 0, Timed: true, MaxSteps: 5_000_000, MaxTime: int64(200 * time.Hour)}, func() {
+		r, err := newEngRun(dir, engCfgs["big"])
+		if err != nil {
+			problem = "HARNESS open: " + err.Error()
+			return
+		}
+		prim, err := replication.NewPrimary(r.Eng.GetWAL(), nil)
+		if err != nil {
+			problem = "HARNESS primary: " + err.Error()
+			r.Close()
+			return
+		}
+		link := &repLink{p: prim}
+		cl := &memClient{link: link}
+		ctx, cancel := context.WithCancel(context.Background())
+		st, err := cl.StreamWAL(ctx, &rp.WALStreamRequest{StartSequence: 1, ListenerAddress: "replica:1"})
+		if err != nil {
+			problem = "HARNESS stream: " + err.Error()
+			return
+		}
+		md, _ := st.Header()
+		actx := metadata.NewOutgoingContext(ctx, md)
+		for i := 0; i < 3; i++ {
+			if err := r.Eng.Put([]byte(fmt.Sprintf("k%d", i)), []byte("v")); err != nil {
+				problem = "put-failed\n" + err.Error()
+			}
+		}
+		before := r.lastSeqStat()
+		if err := r.Eng.FlushImMemTables(); err != nil {
+			problem = "flush-failed\n" + err.Error()
+		}
+		vsched.Quiesce()
+		ack := uint64(3)
+		switch variant {
+		case "acked-one-behind":
+			ack = 2
+		case "acked-all-aged":
+			vtime.Advance(25 * time.Hour) // beyond the primary's 24 h age limit
+		}
+		if _, err := cl.Acknowledge(actx, &rp.Ack{AcknowledgedUpTo: ack}); err != nil {
+			problem = "ack-failed\n" + err.Error()
+		}
+		cancel()
+		prim.Close()
+		r.Eng.Close()
+		e, err := engine.NewEngineFacade(dir)
+		if err != nil {
+			problem = "reopen-failed\n" + err.Error()
+			return
+		}
+		r.Eng = e
+		defer r.Close()
+		after := r.lastSeqStat()
+		if problem == "" && after < before {
+			problem = fmt.Sprintf("stat-decreased\nstorage_last_sequence went from %d to %d across a restart that followed the primary's log retention (variant %s)", before, after, variant)
+		}
+		if err := r.Eng.Put([]byte("k0"), []byte("new")); err != nil {
+			problem = "put-after-restart-failed\n" + err.Error()
+			return
+		}
+		if problem == "" && r.lastSeqStat() <= before {
+			problem = fmt.Sprintf("stamp-not-above-earlier-acknowledged-write\nthe write after the restart is stamped %d, writes before it were stamped up to %d (variant %s)", r.lastSeqStat(), before, variant)
+		}
+		if v, err := r.Eng.Get([]byte("k0")); problem == "" && (err != nil || string(v) != "new") {
+			problem = fmt.Sprintf("latest-write-shadowed\nGet(k0) = %q, %v after Put(k0, new) (variant %s)", v, err, variant)
+		}
+	})
+	res.Evaluations++
+	res.States++
+	res.Transitions += s.Steps
+	res.Traces++
+	res.Nontrivial++
+	if s.Out != vsched.OK && problem == "" {
+		problem = s.Out.String() + "\n" + s.Detail
+	}
+	if strings.HasPrefix(problem, "HARNESS") {
+		res.HarnessErr = problem
+		return res
+	}
+	if problem != "" {
+		res.Violate(fw.FP("C08", "retention", variant, firstLine(problem)), "[retention "+variant+"] "+problem, unit, map[string]any{"kind": "retention", "variant": variant, "problem": problem})
+	}
+	return res
+}
+
+func (r *EngRun) lastSeqStat() uint64 {
+	if st, ok := r.Eng.GetStats()["storage_last_sequence"].(uint64); ok {
+		return st
+	}
+	return 0
 }
